@@ -15,8 +15,10 @@ from vf.props.e2e import outcome_label, spec_summary
 def strategy(draw):
     prof = Profile(vrl=[128, 1024, 8192], max_frames=3, max_channels=4, max_rows=6, max_width=9, casts=True,
                    full_attrs=True, meta_kinds=('axis',), max_meta=2, units=False,
-                   sources=('inline', 'dict'))
+                   sources=('inline', 'dict', 'struct'), shared_datasets=True, upper_names=True)
     spec = draw(file_specs(prof))
+    if spec['write'].get('source') == 'struct' and draw(st.booleans()):
+        spec['write']['opts'] = {'aligned': True}
     lf = spec['lfs'][0]
     chans = [j for j, op in enumerate(lf['ops']) if op['t'] == 'channel']
     frames = [j for j, op in enumerate(lf['ops']) if op['t'] == 'frame']
@@ -50,7 +52,8 @@ def strategy(draw):
             spec['shared_channel'] = True
     elif mode == 2:
         # a channel in no frame
-        lf['ops'].append({'t': 'channel', 'name': 'LONELY', 'data': {'dt': '<i2', 'shape': [3, 2], 'pat': [3, 1]},
+        rows_ = lf['ops'][chans[0]]['data']['shape'][0] if chans else 3     # (a structured source has one row count)
+        lf['ops'].append({'t': 'channel', 'name': 'LONELY', 'data': {'dt': '<i2', 'shape': [rows_, 2], 'pat': [3, 1]},
                           'attrs': {}})
         spec['unframed_channel'] = True
     return spec
@@ -58,6 +61,7 @@ def strategy(draw):
 
 def np_code(op):
     return CODE_OF_DTYPE[op['cast']] if op.get('cast') else CODE_OF_DTYPE[np.dtype(op['data']['dt']).name]
+
 
 
 def check_descriptors(dlf, exp, i, opmap):
